@@ -136,7 +136,15 @@ func (t *thread) advance(d *Term) {
 		}
 		later := r.tt.Cmp("bvslt", r.now, tm.deadline)
 		r.now = r.tt.Ite(later, tm.deadline, r.now)
+		dl := tm.deadline
 		r.fire(tm)
+		// timers armed for the very same instant fire together: their goroutines then run in any
+		// order (the run time gives no order between them)
+		for _, o := range r.activeTimers() {
+			if o != tm && r.truth(concretizeIfConst(types.Typ[types.Bool], r.tt.Eq(o.deadline, dl)), "timer-tie") {
+				r.fire(o)
+			}
+		}
 		t.hpoints++ // mirrored by the virtual-time shim (HPoint after each firing)
 		t.quiesceWait()
 	}
